@@ -16,7 +16,8 @@ func init() {
 			"(D) who-may-dial: the shim package has exactly one websocket dial site, its URL argument is NewConnection's parameter, NewConnection has exactly one call site, the package contains no other network client call, and the handshake response is not used to dial again (no redirect following); " +
 			"(M) mounting: every shim endpoint is registered under path.Join(shimPath, <constant>), the shim server is entered only under the cleaned shim prefix, everything else goes to the wrapped handler with the original writer and request. " +
 			"Not decided: DNS / proxy-environment behaviour of the dialer. " +
-			"The prefix compared with r.URL.Path is <cleaned shim path>+\"/\" assigned before the dispatcher is created, so sibling paths that merely share leading characters are passed through.",
+			"The prefix compared with r.URL.Path is <cleaned shim path>+\"/\" assigned before the dispatcher is created, so sibling paths that merely share leading characters are passed through. " +
+			"The dispatcher stores nothing through the request it hands on (no write through r.URL or r.Header).",
 		Assumptions: []string{"net/url.URL.String renders only Scheme, Opaque, User, Host, Path, RawPath, RawQuery, Fragment", "gorilla's Dialer connects to the host of the URL it is given (plus HTTP(S)_PROXY from the environment)"},
 		Run:         runC13,
 	})
@@ -146,11 +147,11 @@ func runC13(c *Ctx) {
 		nconns = append(nconns, Calls(fn, ModPath+"/agent/websockets.NewConnection")...)
 		others = append(others, Calls(fn, netClients...)...)
 	}
-	okd := len(dials) == 1 && FuncName(dials[0].Parent()) == "agent/websockets.NewConnection" && !InLoop(dials[0].Block())
+	okd := len(dials) == 1 && FuncName(Owner(dials[0])) == "agent/websockets.NewConnection" && !InLoop(dials[0].Block())
 	c.Check("C13.D", "dial:single-site", p, posOf(dials), okd, "one websocket dial site, in NewConnection, outside any loop", fmt.Sprintf("%d websocket dial site(s) in agent/websockets (must be exactly one, in NewConnection, not in a loop): a second dial can target a URL that did not pass the authority overwrite (e.g. a redirect Location)", len(dials)))
 	if len(dials) >= 1 {
 		for k, d := range dials {
-			nc := d.Parent()
+			nc := Owner(d)
 			a := Args(CallOf(d))
 			idx := 1
 			if strings.HasSuffix(CalleeName(CallOf(d)), "DialContext") {
@@ -168,7 +169,7 @@ func runC13(c *Ctx) {
 			c.Check("C13.D", fmt.Sprintf("dial#%d:handshake-response-unused", k+1), p, d.Pos(), !used, "the handshake response is discarded: no Location/redirect can steer a further dial", "the handshake response of the dial is used: a backend redirect (Location) can steer the agent to another host")
 		}
 	}
-	c.Check("C13.D", "NewConnection:single-call-site", p, posOf(nconns), len(nconns) == 1 && se.Inner != nil && nconns[0].Parent() == se.Inner, "NewConnection is called once, from the open handler", fmt.Sprintf("NewConnection has %d call sites in the package", len(nconns)))
+	c.Check("C13.D", "NewConnection:single-call-site", p, posOf(nconns), len(nconns) == 1 && se.Inner != nil && Owner(nconns[0]) == se.Inner, "NewConnection is called once, from the open handler", fmt.Sprintf("NewConnection has %d call sites in the package", len(nconns)))
 	c.Check("C13.D", "package:no-other-network-client", p, posOf(others), len(others) == 0, "no other dial / HTTP client call in agent/websockets", fmt.Sprintf("agent/websockets contains %d other network client call(s), first at %s", len(others), posStr(p, firstOf(others))))
 	// the dialer is gorilla's default dialer without a custom NetDial
 	custom := ""
@@ -297,6 +298,7 @@ func runC13(c *Ctx) {
 				c.Check("C13.M", "dispatch:shim-only-under-prefix", p, toShim.Pos(), guard, "the shim server is entered only when r.URL.Path has the cleaned shim prefix", "the shim server is entered without strings.HasPrefix(r.URL.Path, path.Clean(\"/\"+shimPath)+\"/\")")
 				// and every path that does not take the shim branch calls wrapped
 				hit, _ := (&Walk{Target: IsReturn, Avoid: func(i ssa.Instruction) bool { return i == toShim || i == toWrapped }}).FromBlock(disp.Blocks[0])
+				ruleRequestUntouchedByDispatcher(c, p, "C13.M", disp)
 				c.Check("C13.M", "dispatch:total", p, disp.Pos(), hit == nil, "every request is dispatched to the shim server or to the wrapped handler", "some path of the dispatcher answers neither through the shim server nor through the wrapped handler")
 			} else {
 				c.Unk("C13.M", "dispatch:shim-only-under-prefix", p, disp.Pos(), "no dispatch to the shim server found")
